@@ -1,4 +1,6 @@
 import HypatiaModel.Catalog
+import HypatiaModel.CatalogSort
+import HypatiaModel.Spec.SortSpec
 import HypatiaModel.Spec.CatalogSpec
 import Driver.Sess
 /-!
@@ -10,7 +12,8 @@ Session `catalog` (C12).  Lines:
   val: `i<int>` | `w<k>,<k>…` (keyword list, `w` = empty) | `S` (a str) | `f<facet>,<facet>…` | `P` (persistent) | `B` (broken)
 * `name <n>`, `obs <n>`
 * `search <opt>* [; <name> <form>]*`, `query|call <opt>* [; <name> <form>]+`, `sort <opt>* ; <id>*`
-  opt: `order=a,b` (`order=-` = empty list) | `sort=<name>` | `limit=<n>` | `rev=1`
+  opt: `order=a,b` (`order=-` = empty list) | `sort=<name>` | `limit=<n>` | `rev=1` |
+       `st=none|fwscan|nbest|timsort|stable|optimal|other` (sort_type; answered by the composed C12∘C07 model)
   form: `v E` | `p a b` | `l E*` | `t E*` (tuple, length ≠ 2) | `d <or|and|xor|none> (v E | p a b | l E* | t E* | nq)`
   E: `3` | `3..5` | `..5` | `3..` | `..`   (facet indexes: facet tokens `1:2`, no ranges)
 -/
@@ -196,6 +199,19 @@ def term? (c : Cat Doc) : List String → Option (String × QArg)
 structure Opts where
   sort : SortArgs := {}
   order : Option (List String) := none
+  /-- `st=<sort_type>`: answer with the composed model (`searchM / queryM / callM / sortM`: the sort index's
+  own `FieldIndex.sort`, C07) and pass this `sort_type` (`none` = the default `None`) -/
+  st : Option (Option Field.SortType) := none
+
+def sortType? : String → Option (Option Field.SortType)
+  | "none" => some none
+  | "fwscan" => some (some .fwscan)
+  | "nbest" => some (some .nbest)
+  | "timsort" => some (some .timsort)
+  | "stable" => some (some .stable)
+  | "optimal" => some (some .optimal)
+  | "other" => some (some .other)
+  | _ => none
 
 def opts? : List String → Opts → Option Opts
   | [], o => some o
@@ -205,6 +221,7 @@ def opts? : List String → Opts → Option Opts
     | ["sort", v] => opts? ts { o with sort := { o.sort with sortIndex := some v } }
     | ["limit", v] => v.toInt?.bind (fun l => opts? ts { o with sort := { o.sort with limit := some l } })
     | ["rev", v] => opts? ts { o with sort := { o.sort with reverse := v = "1" } }
+    | ["st", v] => (sortType? v).bind (fun t => opts? ts { o with st := some t })
     | _ => none
 
 /-! ## answers -/
@@ -230,8 +247,18 @@ def showModel (c : Cat Doc) (a : SortArgs) : Except Err (Nat × Result) → Stri
       | none => 0
     showSorted n (l.map key) raised (if a.limit.isSome then none else some l)
 
+/-- the composed model's `(num, result)` in the same canonical form (what iterating the result shows) -/
+def showModelM (c : Cat Doc) (a : SortArgs) : Except Err (Nat × ResultM) → String
+  | .error e => showErr e
+  | .ok (n, .ids s) => s!"{n} {showIdSet s}"
+  | .ok (n, .sorted r) =>
+    match r.observe with
+    | none => showErr .valueError
+    | some g => showModel c a (.ok (n, .seq g.ids g.raised.isSome))
+
 /-- the specification's answer for an id set `I` and the sort arguments -/
-def showSpec (st : St) (a : SortArgs) (bailEmpty : Bool) : Except Err IdSet → String
+def showSpec (st : St) (a : SortArgs) (bailEmpty : Bool) (sortType : Option Field.SortType := none) :
+    Except Err IdSet → String
   | .error e => showErr e
   | .ok I =>
     if bailEmpty && I = [] then "0 {}"
@@ -244,6 +271,8 @@ def showSpec (st : St) (a : SortArgs) (bailEmpty : Bool) : Except Err IdSet → 
         if (match a.limit with | some l => decide (l < 1) | none => false) then showErr .valueError
         else if I ≠ [] && (Field.Spec.known t).all (fun d => (Field.Spec.valueOf t d).isNone) then
           showErr .unsortable          -- a sort index without any value raises at once
+        else if I ≠ [] && Field.Spec.rejects a.reverse a.limit sortType then
+          showErr .valueError          -- forward scan in reverse, n-best without a limit, unknown sort type
         else
           let r := Spec.sortKeys t I a.reverse a.limit
           showSorted (Spec.num I.length a.sortIndex a.limit) r.1 r.2
@@ -263,11 +292,12 @@ def parseTerms (c : Cat Doc) (groups : List (List String)) : Option (List (Strin
 
 def doSearch (st : St) (o : Opts) (terms : List (String × QArg)) : String :=
   let a : SearchArgs := { toSortArgs := o.sort, terms := terms, order := o.order }
-  let m := search st.cat a
   let sp := match o.order with
     | none => Spec.unordered (terms.map (specResolve st)) []
     | some order => Spec.orderedGo ((Spec.applicable terms order).map (specResolve st)) []
-  showModel st.cat o.sort m ++ " ## " ++ showSpec st o.sort true sp
+  match o.st with
+  | some t => showModelM st.cat o.sort (searchM st.cat a t) ++ " ## " ++ showSpec st o.sort true t sp
+  | none => showModel st.cat o.sort (search st.cat a) ++ " ## " ++ showSpec st o.sort true none sp
 
 def seqE {ε α : Type} : List (Except ε α) → Except ε (List α)
   | [] => .ok []
@@ -275,14 +305,23 @@ def seqE {ε α : Type} : List (Except ε α) → Except ε (List α)
   | .ok a :: rest => (seqE rest).map (a :: ·)
 
 def doQuery (st : St) (o : Opts) (terms : List (String × QArg)) (viaCall : Bool) : String :=
-  let m := match seqE (terms.map (resolve st.cat)) with
-    | .error e => .error e
-    | .ok rs => if viaCall then call st.cat (andApply rs) o.sort else query st.cat (andApply rs) o.sort
   let sp := (seqE (terms.map (specResolve st))).map Spec.interAll
-  showModel st.cat o.sort m ++ " ## " ++ showSpec st o.sort false sp
+  match o.st with
+  | some t =>
+    let m := match seqE (terms.map (resolve st.cat)) with
+      | .error e => .error e
+      | .ok rs => if viaCall then callM st.cat (andApply rs) o.sort t else queryM st.cat (andApply rs) o.sort t
+    showModelM st.cat o.sort m ++ " ## " ++ showSpec st o.sort false t sp
+  | none =>
+    let m := match seqE (terms.map (resolve st.cat)) with
+      | .error e => .error e
+      | .ok rs => if viaCall then call st.cat (andApply rs) o.sort else query st.cat (andApply rs) o.sort
+    showModel st.cat o.sort m ++ " ## " ++ showSpec st o.sort false none sp
 
 def doSort (st : St) (o : Opts) (ids : List Int) : String :=
-  showModel st.cat o.sort (sort st.cat ids o.sort) ++ " ## " ++ showSpec st o.sort false (.ok ids)
+  match o.st with
+  | some t => showModelM st.cat o.sort (sortM st.cat ids o.sort t) ++ " ## " ++ showSpec st o.sort false t (.ok ids)
+  | none => showModel st.cat o.sort (sort st.cat ids o.sort) ++ " ## " ++ showSpec st o.sort false none (.ok ids)
 
 def addIndex (st : St) : List String → Option St
   | [name, "field", attr] =>
